@@ -738,6 +738,15 @@ func scenarios() []hx.Scenario {
 	var out []hx.Scenario
 	seen := map[string]bool{}
 	add := func(s scen, class string, delay bool, minBound, bound int, thoroughOnly bool) {
+		if s.grace == 0 {
+			s.grace = '-'
+		}
+		if s.close == 0 {
+			s.close = '-'
+		}
+		if s.addCloser == 0 {
+			s.addCloser = '-'
+		}
 		if s.grace == 'x' != strings.Contains(s.closers, "f") {
 			return
 		}
@@ -863,7 +872,7 @@ func scenarios() []hx.Scenario {
 								continue
 							}
 							quick := in(t, "n", "N") && cl == "" && ac == 'e' && cm != 'a'
-							add(sc, addCls, true, dMin(false), dMax(false), !quick)
+							add(sc, addCls, false, 1, 2, !quick)
 						}
 					}
 				}
